@@ -243,6 +243,8 @@ func VecMenu() []spec.Batch {
 	mk := func(metric string, cells ...int) spec.Batch {
 		return VecCase{Docs: cells, Metric: metric}.Batch()
 	}
+	wOnly := spec.Batch{Docs: []spec.Doc{{ID: "w0", Fields: []spec.Field{fld("f", 1, tok("x", 1)),
+		{Name: "w", Kind: spec.Vector, Vec: []float32{3, 2, 1, 0, 1, 0}, Dims: 3, Sim: "l2_norm", Opt: "latency"}}}}}
 	noVecField := spec.Batch{Docs: []spec.Doc{{ID: "n0", Fields: []spec.Field{fld("f", 1, tok("x", 1))}}}}
 	return []spec.Batch{
 		mk("l2_norm", 2, 4),    // M0: g1 ; g3
@@ -251,6 +253,8 @@ func VecMenu() []spec.Batch {
 		noVecField,             // M3: field v absent
 		mk("l2_norm", 0, 0),    // M4: documents but no vectors
 		{},                     // M5: empty batch
+		VecCase{Docs: []int{1, 3}, Metric: "l2_norm", Two: true}.Batch(), // M6: two vector fields (v in both docs, w in doc 0)
+		wOnly, // M7: only the second vector field w
 	}
 }
 
